@@ -396,19 +396,7 @@ func stalledBurst(c *ctx, n int) {
 			close(done)
 		}()
 		// wait until the lookups are all through, or stuck behind the full request channel
-		last, stable := int64(-1), 0
-		for stable < 40 {
-			select {
-			case <-done:
-				stable = 1 << 30
-			case <-time.After(5 * time.Millisecond):
-				if r := atomic.LoadInt64(&returned); r == last {
-					stable++
-				} else {
-					last, stable = r, 0
-				}
-			}
-		}
+		waitStuckOrDone(done, &returned)
 		w.ads.mu.Lock()
 		for _, s := range w.ads.streams {
 			s.sendGate = nil
@@ -478,19 +466,7 @@ func stalledAck(c *ctx, n int, bad bool) {
 			}
 			close(done)
 		}()
-		last, stable := int64(-1), 0
-		for stable < 40 {
-			select {
-			case <-done:
-				stable = 1 << 30
-			case <-time.After(5 * time.Millisecond):
-				if r := atomic.LoadInt64(&returned); r == last {
-					stable++
-				} else {
-					last, stable = r, 0
-				}
-			}
-		}
+		waitStuckOrDone(done, &returned)
 		w.ads.mu.Lock()
 		for _, s := range w.ads.streams {
 			s.sendGate = nil
